@@ -225,6 +225,27 @@ func genC05(r *Rng, tier string, i int) map[string]any {
 		if len(st.rows) > 2 && r.Bool() {
 			st.rows[0][9], st.rows[1][9] = st.rows[1][0], st.rows[0][0]
 		}
+		if r.P(1, 4) {
+			// a ragged table under a header in which names are repeated or blank (at any position, also the first):
+			// rows shorter and longer than the header, fewer distinct names than header cells
+			t := f.tables[r.Pick(staticFiles)]
+			for k := 0; k < 1+r.Intn(3); k++ {
+				i := r.Intn(len(t.header))
+				if r.Bool() {
+					t.header[i] = ""
+				} else {
+					t.header[i] = t.header[r.Intn(len(t.header))]
+				}
+			}
+			for ri, row := range t.rows {
+				switch r.Intn(4) {
+				case 0:
+					t.rows[ri] = row[:r.Intn(len(row)+1)]
+				case 1:
+					t.rows[ri] = append(append([]string{}, row...), "extra")
+				}
+			}
+		}
 		return staticCase(f.members(r, false, drop), nil, r.Bool(), nil)
 	case 1: // members that are random CSV-ish bytes
 		f := genFeed(r, feedOpts{messy: true})
@@ -310,7 +331,7 @@ func extConfig(i int) map[string]any {
 type c05Prop struct{ st staticProp }
 
 func (p *c05Prop) Rule() string {
-	return "four streams: (1) syntactically valid CSV with semantically wrong cells in every column (unknown ids after known ones, non-numeric numbers, blank required cells, duplicate or renamed headers, missing files, cyclic parents); (2) members replaced by random CSV-alphabet bytes (quotes, CR, LF, 0xff, BOM), headers followed by garbage, records of the wrong width; (3) arbitrary bytes as the archive; (4) realtime messages as generated, bit-flipped, truncated or random bytes under each of the 25 extension configurations, followed by hashing every trip and vehicle, building a journal from the parsed feeds and exporting it; every accessor (Root, Hash, getters, ExportToCsv) is called on every result; each case runs under a 20 s watchdog; the model predicts the outcome class of the static cases; distinct = distinct input JSON; non-trivial = every case"
+	return "four streams: (1) syntactically valid CSV with semantically wrong cells in every column (unknown ids after known ones, non-numeric numbers, blank required cells, duplicate or renamed headers, ragged tables under headers with repeated or blank names, missing files, cyclic parents); (2) members replaced by random CSV-alphabet bytes (quotes, CR, LF, 0xff, BOM), headers followed by garbage, records of the wrong width; (3) arbitrary bytes as the archive; (4) realtime messages as generated, bit-flipped, truncated or random bytes under each of the 25 extension configurations, followed by hashing every trip and vehicle, building a journal from the parsed feeds and exporting it; every accessor (Root, Hash, getters, ExportToCsv) is called on every result; each case runs under a 20 s watchdog; the model predicts the outcome class of the static cases; distinct = distinct input JSON; non-trivial = every case"
 }
 func (p *c05Prop) N(tier string) int {
 	if tier == "thorough" {
